@@ -244,6 +244,16 @@ impl Exec {
         if iter != in_order {
             self.fail("C17", format!("node_iter {} != in-order traversal {}", show_kvs(&iter), show_kvs(&in_order)));
         }
+        // a visitor that only implements `visit_node` (the trait's defaults for the rest) sees the same nodes
+        let t = self.trees.get(&id).unwrap().tree.as_ref().unwrap();
+        match catch_unwind(AssertUnwindSafe(|| t.minimal_visit())) {
+            Ok(seen) => {
+                if seen != in_order {
+                    self.fail("C17", format!("a visitor relying on the default callbacks saw {} of {} nodes", seen.len(), in_order.len()));
+                }
+            }
+            Err(_) => self.fail("C15", "in_order_traversal panicked with a minimal visitor".into()),
+        }
         self.tick("C09");
         for m in c09 {
             self.fail("C09", m);
@@ -997,6 +1007,12 @@ impl Exec {
                             }
                             if same && roots.0 != roots.1 {
                                 f.push(("C01", "same content, different root hashes".to_string()));
+                            }
+                            // `RootHash == RootHash` (how a user compares replicas) must agree with the bytes
+                            if let Some(eq) = ta.root_eq(tb.as_ref()) {
+                                if eq != (roots.0 == roots.1) {
+                                    f.push(("C03", "RootHash == RootHash disagrees with the comparison of the digest bytes".to_string()));
+                                }
                             }
                             self.tick("C04");
                             self.tick("C03");
